@@ -222,6 +222,8 @@ func cmdCheck(eng *Engine, args []string, tier string, keep, verbose bool, start
 		"A-ARITH: int arithmetic is mathematical (no overflow); byte/rune/int32 conversions wrap exactly",
 		"A-ALIAS: slices have value semantics (two live slices sharing a backing array are not modelled)",
 		"A-LOOP: composition of the per-command contracts by the Readline main loop is not proved",
+		"A-ARRAYCELL: the frame of cells of fixed-size arrays ([n]any argument packs of variadic calls, stack buffers of callees) is not checked: never caller-visible objects in this module (each skipped key is listed per function)",
+		"trusted contracts that carry at_call clauses: requires / assigns / ensures trusted as before; the body is walked for the call-site assertions only, with callee preconditions and panic sites assumed",
 		"SMT solvers z3 4.8.12 / z3 5.1.0 / cvc5 1.0.3 are trusted for unsat answers",
 		"library functions without a spec: result unconstrained, assumed not to write module state")
 	for _, k := range sortedIntMap(calleeHow) {
